@@ -24,8 +24,15 @@ type tplPart struct {
 	val   ssa.Value
 }
 
+// holeCtx: when a script piece is built inside a helper, the helper's
+// parameters stand for what the builder passes in.
+var holeCtx map[ssa.Value]string
+
 // envHole classifies a non-constant part of the script concatenation.
 func envHole(v ssa.Value) string {
+	if h, ok := holeCtx[v]; ok {
+		return h
+	}
 	// KEY / VALUE: extract of Next over Range(All())
 	if ex, ok := v.(*ssa.Extract); ok {
 		if nx, ok := ex.Tuple.(*ssa.Next); ok {
@@ -87,26 +94,104 @@ func rulesC18(c *Ctx) {
 	ruleEnvNames(c)
 }
 
-func ruleHeredoc(c *Ctx, f *ssa.Function) {
-	name := fname(f)
-	// all concatenation roots that contain a VALUE hole: take the outermost + chains
-	var roots []*ssa.BinOp
+// scriptTemplates: every piece of script text built in f that contains a hole
+// of interest: outermost + chains, and per-block sequences of Write* calls on
+// a strings.Builder / bytes.Buffer.
+func scriptTemplates(f *ssa.Function) [][]tplPart {
+	var out [][]tplPart
 	eachInstr(f, func(_ *ssa.BasicBlock, _ int, in ssa.Instruction) {
 		bo, ok := in.(*ssa.BinOp)
 		if !ok || bo.Op != token.ADD || !isStringy(bo.Type()) {
 			return
 		}
-		// outermost: no referrer is a string + using it
 		for _, r := range *bo.Referrers() {
 			if p, ok := r.(*ssa.BinOp); ok && p.Op == token.ADD {
 				return
 			}
 		}
-		roots = append(roots, bo)
+		// a + chain that is itself written to a builder is handled with the builder
+		out = append(out, flattenTemplate(bo))
 	})
+	// builder sequences: consecutive writes to the same accumulator; a block that only
+	// re-enters the loop does not break the sequence of one iteration
+	for _, b := range f.Blocks {
+		byAcc := map[string][]tplPart{}
+		var order []string
+		for _, in := range b.Instrs {
+			ci := callInfo(in, nil, 0)
+			if ci == nil || ci.Static == nil || ci.Kind != "call" {
+				continue
+			}
+			q := qualName(ci.Static)
+			if !(strings.HasPrefix(q, "strings.(Builder).Write") || strings.HasPrefix(q, "bytes.(Buffer).Write")) {
+				continue
+			}
+			k := keyP(ci.Recv())
+			if _, seen := byAcc[k]; !seen {
+				order = append(order, k)
+			}
+			for _, p := range flattenTemplate(ci.Arg(0)) {
+				parts := byAcc[k]
+				if p.hole == "" && len(parts) > 0 && parts[len(parts)-1].hole == "" {
+					parts[len(parts)-1].konst += p.konst
+					byAcc[k] = parts
+				} else {
+					byAcc[k] = append(parts, p)
+				}
+			}
+		}
+		for _, k := range order {
+			out = append(out, append([]tplPart{{hole: "ACC"}}, byAcc[k]...))
+		}
+	}
+	return out
+}
+
+func ruleHeredoc(c *Ctx, f *ssa.Function) {
+	name := fname(f)
+	type tmpl struct {
+		parts []tplPart
+		fn    *ssa.Function
+		pos   token.Pos
+	}
+	var tmpls []tmpl
+	holeCtx = nil
+	for _, parts := range scriptTemplates(f) {
+		tmpls = append(tmpls, tmpl{parts, f, f.Pos()})
+	}
+	// pieces built by a private helper that is handed the key / value / tag
+	for _, ci := range Calls(f) {
+		g := ci.Static
+		if g == nil || !inModule(g) || g.Blocks == nil || ci.Kind != "call" {
+			continue
+		}
+		ctx := map[ssa.Value]string{}
+		hasValue := false
+		holeCtx = nil
+		for ai, a := range ci.Common.Args {
+			if ai >= len(g.Params) {
+				break
+			}
+			h := envHole(a)
+			if h == "VALUE" {
+				hasValue = true
+			}
+			if h == "VALUE" || h == "KEY" || h == "TAG" {
+				ctx[g.Params[ai]] = h
+			}
+		}
+		if !hasValue {
+			continue
+		}
+		holeCtx = ctx
+		for _, parts := range scriptTemplates(g) {
+			tmpls = append(tmpls, tmpl{parts, g, ci.Pos()})
+		}
+		holeCtx = nil
+	}
 	valueSeen := 0
-	for _, root := range roots {
-		parts := flattenTemplate(root)
+	for _, t := range tmpls {
+		parts := t.parts
 		hasValue := false
 		for _, p := range parts {
 			if p.hole == "VALUE" {
@@ -120,7 +205,7 @@ func ruleHeredoc(c *Ctx, f *ssa.Function) {
 		tpl := renderTemplate(parts)
 		con := "environment value in the script of " + name
 		why := lexHeredoc(parts)
-		c.Check(why == "", "R1", con, root.Pos(), "VALUE is the body of a here-document with a quoted, TAG-carrying delimiter: "+tpl,
+		c.Check(why == "", "R1", con, t.pos, "VALUE is the body of a here-document with a quoted, TAG-carrying delimiter: "+tpl,
 			why+" [template: "+tpl+"] — a value such as $(cmd), `cmd` or $VAR is interpreted by the sandbox shell")
 		// R2 for this template
 		var tags []ssa.Value
@@ -132,19 +217,31 @@ func ruleHeredoc(c *Ctx, f *ssa.Function) {
 		okT := len(tags) >= 2
 		whyT := "the delimiter does not carry a random tag twice (open and close)"
 		if okT {
-			for _, t := range tags[1:] {
-				if resolve(t) != resolve(tags[0]) && !sameValue(t, tags[0]) {
+			for _, tg := range tags[1:] {
+				if resolve(tg) != resolve(tags[0]) && !sameValue(tg, tags[0]) {
 					okT, whyT = false, "opening and closing delimiter are different values"
 				}
 			}
-			if w := freshRandomTag(f, tags[0]); w != "" {
+			// the tag value as the builder sees it (the helper's parameter stands for the builder's argument)
+			tv := tags[0]
+			if t.fn != f {
+				for _, ci := range Calls(f) {
+					if ci.Static == t.fn {
+						for ai, p := range t.fn.Params {
+							if ssa.Value(p) == tv && ai < len(ci.Common.Args) {
+								tv = ci.Common.Args[ai]
+							}
+						}
+					}
+				}
+			}
+			if w := freshRandomTag(f, tv); w != "" {
 				okT, whyT = false, w
 			}
 		}
-		c.Check(okT, "R2", "heredoc terminator in "+name, root.Pos(), "RandString(const >= 8) evaluated in the builder on every call; same value opens and closes", whyT+" — a value containing the terminator line ends the document early and the rest is executed")
+		c.Check(okT, "R2", "heredoc terminator in "+name, t.pos, "RandString(const >= 8) evaluated in the builder on every call; same value opens and closes", whyT+" — a value containing the terminator line ends the document early and the rest is executed")
 	}
 	if valueSeen == 0 {
-		// value used some other way (Sprintf ...)?
 		used := false
 		eachInstr(f, func(_ *ssa.BasicBlock, _ int, in ssa.Instruction) {
 			for _, op := range in.Operands(nil) {
@@ -154,7 +251,7 @@ func ruleHeredoc(c *Ctx, f *ssa.Function) {
 			}
 		})
 		if used {
-			c.Bad("R1", "environment value in the script of "+name, f.Pos(), "the environment value is not placed by plain concatenation into a here-document (it flows through another construct, e.g. a format string) — cannot certify verbatim transfer")
+			c.Bad("R1", "environment value in the script of "+name, f.Pos(), "the environment value is not placed by plain concatenation (or builder writes) into a here-document (it flows through another construct, e.g. a format string) — cannot certify verbatim transfer")
 		} else {
 			c.Bad("R1", "environment value in the script of "+name, f.Pos(), "the builder no longer emits environment values; cannot certify")
 		}
@@ -373,11 +470,33 @@ func ruleEnvNames(c *Ctx) {
 			ok2 := false
 			for _, ci := range Calls(f) {
 				call, isCall := ci.Instr.(*ssa.Call)
-				if !isCall || !facts.KnownNil(b, call, true) {
+				if !isCall {
+					continue
+				}
+				if ci.Static == validKey {
+					if ex, isEx := mu.Key.(*ssa.Extract); isEx {
+						if nx, isNx := ex.Tuple.(*ssa.Next); isNx {
+							if rg, isRg := nx.Iter.(*ssa.Range); isRg && loopValidatesAll(f, rg.X, validKey, mu) {
+								ok2 = true
+							}
+						}
+					}
+				}
+				if !facts.KnownNil(b, call, true) {
 					continue
 				}
 				if ci.Static == validKey && sameValue(ci.Arg(0), mu.Key) {
 					ok2 = true
+				}
+				// the whole map was validated key by key in an earlier loop of this function
+				if ci.Static == validKey {
+					if ex, isEx := mu.Key.(*ssa.Extract); isEx {
+						if nx, isNx := ex.Tuple.(*ssa.Next); isNx {
+							if rg, isRg := nx.Iter.(*ssa.Range); isRg && loopValidatesAll(f, rg.X, validKey, mu) {
+								ok2 = true
+							}
+						}
+					}
 				}
 				if valid != nil && ci.Static == valid {
 					// key ranges over the validated map
@@ -604,4 +723,62 @@ func identifierLanguage(pat string) string {
 		return "accepts the empty name"
 	}
 	return ""
+}
+
+// loopValidatesAll: before `point`, function f ranges over the map m calling
+// validKey on every key, and leaves that loop only by exhaustion (every
+// continuing iteration has seen a nil result; a non-nil result returns).
+func loopValidatesAll(f *ssa.Function, m ssa.Value, validKey *ssa.Function, point ssa.Instruction) bool {
+	facts := factsFor(f)
+	ok := false
+	for _, ci := range Calls(f) {
+		if ci.Static != validKey {
+			continue
+		}
+		call, isCall := ci.Instr.(*ssa.Call)
+		if !isCall || !inLoop(f, call.Block()) {
+			continue
+		}
+		// the validated key ranges over the same map
+		ex, isEx := ci.Arg(0).(*ssa.Extract)
+		if !isEx {
+			continue
+		}
+		nx, isNx := ex.Tuple.(*ssa.Next)
+		if !isNx {
+			continue
+		}
+		rg, isRg := nx.Iter.(*ssa.Range)
+		if !isRg || !(rg.X == m || sameValue(rg.X, m)) {
+			continue
+		}
+		// the loop of this Range: header = block of Next
+		header := nx.Block()
+		if !header.Dominates(point.Block()) || inSameLoop(f, header, point.Block()) {
+			continue
+		}
+		good := true
+		for _, e := range loopBackEdges(f) {
+			if e[1] != header {
+				continue
+			}
+			if !knownNilIn(factsOnEdge(facts, e[0], e[1]), call, true) {
+				good = false
+			}
+		}
+		if good && failingEdgeAlwaysReturns(f, call) {
+			ok = true
+		}
+	}
+	return ok
+}
+
+// inSameLoop: b lies in the natural loop headed by header.
+func inSameLoop(f *ssa.Function, header, b *ssa.BasicBlock) bool {
+	for _, e := range loopBackEdges(f) {
+		if e[1] == header && header.Dominates(b) && reachesBlock(b, e[0]) {
+			return true
+		}
+	}
+	return false
 }
